@@ -18,7 +18,7 @@ from ..core import VERIF, AnalysisError, Func, Module, Repo, Report, call_name, 
 from ..dataflow import DefUse
 from ..resolve import Resolver
 from ..sites import guard_chain
-from .util import canon, cguards, ckey
+from .util import canon, cguards, cguards_any, ckey
 
 BOOKKEEPING = {"entity_obj": "pre-built draftsman object", "footprint": "layout footprint, not a prototype attribute",
                "property_writes": "circuit-driven properties, applied separately"}
@@ -130,7 +130,7 @@ def run(repo: Repo, rep: Report, tier: str) -> None:
     cec = canon(ec)
     rets = [n for n in walk_local(ec.node) if isinstance(n, ast.Return) and n.value is not None]
     const_ret = [r for r in rets if cec.text(r.value).startswith("self._try_extract_const_value(")]
-    ok = bool(const_ret) and any(t == cec.text(const_ret[0].value) + " is not None" and pol for t, pol in cguards(ec, const_ret[0]))
+    ok = bool(const_ret) and any(t == cec.text(const_ret[0].value) + " is not None" and pol for t, pol in cguards_any(ec, const_ret[0]))
     rep.check(ok, "C09-R1", "_extract_coordinate returns the extracted constant unchanged", cec.text(const_ret[0].value) if const_ret else "no return of the extracted constant", ec.loc(const_ret[0]) if const_ret else ec.loc())
     tev = el.methods["_try_extract_const_value"]
     ctev = canon(tev)
@@ -166,12 +166,12 @@ def run(repo: Repo, rep: Report, tier: str) -> None:
     alts = sorted(cpue.alts(posk)) if posk is not None else []
     # the tuple alternative must be assigned under the both-int condition, the None alternative otherwise
     tuple_defs = [n for n in walk_local(pue.node) if isinstance(n, ast.Assign) and isinstance(n.value, ast.Tuple) and "op.x" in norm(n.value)]
-    ok = bool(tuple_defs) and any(t == BOTH and pol for t, pol in cguards(pue, tuple_defs[0]))
+    ok = bool(tuple_defs) and any(t == BOTH and pol for t, pol in cguards_any(pue, tuple_defs[0]))
     rep.check(ok, "C09-R1", "position is user-specified exactly when both coordinates are ints", "; ".join(("" if p_ else "not ") + t for t, p_ in cguards(pue, tuple_defs[0])) if tuple_defs else "", pue.loc(tuple_defs[0]) if tuple_defs else pue.loc())
     ok = bool(alts) and set(alts) <= {"(int(op.x), int(op.y))", "(op.x, op.y)", "None"} and len(alts) == 2 and "None" in alts
     rep.check(ok, "C09-R1", "the placement stores (x, y) unmodified", str(alts), pue.loc(role[0]) if role else pue.loc())
     flag = [n for n in walk_local(pue.node) if isinstance(n, ast.Assign) and "user_specified_position" in norm(n.targets[0])]
-    ok = bool(flag) and any(t == BOTH and pol for t, pol in cguards(pue, flag[0])) and norm(flag[0].value) == "True"
+    ok = bool(flag) and any(t == BOTH and pol for t, pol in cguards_any(pue, flag[0])) and norm(flag[0].value) == "True"
     rep.check(ok, "C09-R1", "user_specified_position is set under that condition", "under " + BOTH if ok else "", pue.loc(flag[0]) if flag else pue.loc())
     ok = bool(role) and kwarg(role[0], "role") is not None and norm(kwarg(role[0], "role")) == "'user_entity'" and cpue.text(kwarg(role[0], "entity_type")) == "op.prototype"
     rep.check(ok, "C09-R1", "one placement of the requested prototype with role user_entity per IRPlaceEntity", "EntityPlacement(entity_type=op.prototype, role='user_entity')" if ok else "", pue.loc())
